@@ -94,10 +94,10 @@ func gen(t *rapid.T) Case {
 	c := Case{Repeat: 1}
 	c.Cfg = Cfg{
 		Engine:        rapid.SampledFrom([]string{"skiplist", "art"}).Draw(t, "engine"),
-		Threshold:     64,
-		MemKB:         rapid.SampledFrom([]int{8, 32, 1024, 1024}).Draw(t, "memkb"), // every memtable costs a 64MiB arena: keep rotations few
+		Threshold:     rapid.SampledFrom([]int64{64, 64, 64, 1024}).Draw(t, "threshold"), // 1024: every value inline (and > MaxBatchSize 512 possible)
+		MemKB:         rapid.SampledFrom([]int{8, 32, 1024, 1024}).Draw(t, "memkb"),      // every memtable costs a 64MiB arena: keep rotations few
 		L0:            rapid.SampledFrom([]int{2, 4, 1000}).Draw(t, "l0"),
-		HotLimit:      rapid.SampledFrom([]int32{0, 0, 6, 15, 40}).Draw(t, "hotlimit"),
+		HotLimit:      rapid.SampledFrom([]int32{0, 0, 0, 6, 15, 40}).Draw(t, "hotlimit"),
 		HotBurst:      rapid.SampledFrom([]int32{0, 8}).Draw(t, "hotburst"),
 		BG:            rapid.IntRange(0, 9).Draw(t, "bg") == 0,
 		BatchWaitUS:   rapid.SampledFrom([]int{200, 200, 200, 0, 1000}).Draw(t, "batchwait"),
@@ -110,6 +110,7 @@ func gen(t *rapid.T) Case {
 	gcFlavor := rapid.IntRange(0, 9).Draw(t, "flavor") < 3
 	if gcFlavor {
 		c.Cfg.VlogKB = 8
+		c.Cfg.Threshold = 64
 		c.Cfg.Buckets = 1
 		c.Cfg.MaxBatchSize = 16 << 20
 	}
@@ -217,7 +218,7 @@ func TestCheck(t *testing.T) {
 			"background compaction is kept off while C01-F1c (equal internal keys in one ingest buffer) is listed open, because every L0 compaction of a 2-3 key workload creates exactly that layout",
 		},
 	}
-	pbt.Add(s, &pbt.Spec[Case]{Name: "hist", Gen: gen, Run: run, Quick: 800, Thorough: 30000, Shards: 8, Nondet: true, Timeout: 15 * time.Minute})
+	pbt.Add(s, &pbt.Spec[Case]{Name: "hist", Gen: gen, Run: run, Quick: 500, Thorough: 30000, Shards: 8, Nondet: true, Timeout: 15 * time.Minute})
 	if pbt.Tier() == "thorough" {
 		pbt.Add(s, &pbt.Spec[RaceCase]{Name: "race", Run: runRace, Static: raceCases, Nondet: true})
 	}
